@@ -197,7 +197,7 @@ void run(Ctx &ctx) {
         const std::vector<Item> &third = ctx.quick() || ctx.secondary ? thin : items;
         if (!ctx.secondary) for (auto &t : third) { std::vector<Item> L3 = { items[i], items[j], t }; ra.list_case(L3, false); if (!ctx.quick()) rw.list_case(L3, false); }
     }
-    all_strings(ctx, "&=a+%41", ctx.secondary ? 4 : ctx.quick() ? 6 : 8, [&](const Str &s) { if (ctx.expired()) return; ra.splitter_case(s); rw.splitter_case(s); });
+    all_strings(ctx, "&=a+%41", (ctx.secondary ? 4 : ctx.quick() ? 6 : 8) + ctx.bonus, [&](const Str &s) { if (ctx.expired()) return; ra.splitter_case(s); rw.splitter_case(s); });
     big_sizes(ctx, lc);
     if (sw.tripped()) ctx.violation("", "S`a`0`0`A", "AddressSanitizer reported an invalid access");
     ctx.st.count("evaluations", lc.compose_calls + lc.dissects + lc.splitter + lc.big); ctx.st.count("lists", lc.lists); ctx.st.count("compose_calls", lc.compose_calls); ctx.st.count("compose_refused_too_small", lc.too_small);
